@@ -122,10 +122,12 @@ class AXISlave:
     """AXI4 memory / tag slave. Accepts AW, W, AR independently; W beats are collected until last and
     paired with AWs in order; B and R bursts are returned in order."""
     def __init__(self, bus, rng, name="s", depth=4, aw_sched=None, w_sched=None, ar_sched=None, r_sched=None, lat=(0, 3),
-                 err_p=0.0, mem=None, tagger=None, coop_from=10**9, mute_from=None, mute_kind="all"):
+                 err_p=0.0, mem=None, tagger=None, coop_from=10**9, mute_from=None, mute_kind="all", accept_lat=None):
         self.bus, self.rng, self.name, self.depth = bus, rng, name, depth
         self.aw_sched, self.w_sched, self.ar_sched = aw_sched or Always(True), w_sched or Always(True), ar_sched or Always(True)
         self.r_sched = r_sched or Always(True)
+        self.accept_lat = accept_lat          # {"aw": L, "w": L, "ar": L}: ready only after valid was seen for L cycles (as AXILSlave)
+        self.seen = {"aw": 0, "w": 0, "ar": 0}
         self.lat, self.err_p = lat, err_p
         self.mem = mem if mem is not None else {}          # byte address -> byte
         self.tagger = tagger
@@ -160,6 +162,7 @@ class AXISlave:
         b, rng = self.bus, self.rng
         coop = c >= self.coop_from
         w = {}
+        prev_ready = {"aw": self.aw_ready, "w": self.w_ready, "ar": self.ar_ready}
         if self.aw_ready and v[b.aw.valid]:
             e = self._ax(b.aw, v, c)
             self.log["aw"].append(e)
@@ -235,5 +238,16 @@ class AXISlave:
         self.aw_ready = int(room_w and (coop or self.aw_sched.next()) and not self.muted(c, "aw"))
         self.w_ready = int(len(self.wbursts) < self.depth and (coop or self.w_sched.next()) and not self.muted(c, "w"))
         self.ar_ready = int(len(self.rq) < 64 and (coop or self.ar_sched.next()) and not self.muted(c, "ar"))
+        if self.accept_lat:
+            for ch, attr in (("aw", "aw_ready"), ("w", "w_ready"), ("ar", "ar_ready")):
+                ep = getattr(b, ch)
+                if prev_ready[ch] and v[ep.valid]:
+                    self.seen[ch] = 0                      # handshake in the cycle that ended
+                elif v[ep.valid]:
+                    self.seen[ch] += 1
+                else:
+                    self.seen[ch] = 0
+                if ch in self.accept_lat:
+                    setattr(self, attr, int(self.seen[ch] >= self.accept_lat[ch] and not self.muted(c, ch)))
         w[b.aw.ready], w[b.w.ready], w[b.ar.ready] = self.aw_ready, self.w_ready, self.ar_ready
         return w
